@@ -50,6 +50,7 @@ type Spec struct {
 	UID        int      `json:"uid"`
 	DirState   string   `json:"dir_state"` // exists missing missing-deep file
 	Path       string   `json:"path"`
+	Aligned    int    `json:"aligned,omitempty"` // some (document, identifier) pair encodes to an exact multiple of this size
 	Path2      string   `json:"path2,omitempty"` // a second directory the same FileSystem value may be re-pointed at
 	Cwd        string   `json:"cwd,omitempty"`
 	IDs        []string `json:"ids"`
